@@ -757,19 +757,21 @@ def c17(ctx):
                     a = render(fn.expr_of_operand(s['rv']['a']))
                     b = render(fn.expr_of_operand(s['rv']['b']))
                     op = s['rv']['op']
-                    if op == 'Gt':
-                        a, b, op = b, a, 'Lt'
-                    if op == 'Ge':
-                        a, b, op = b, a, 'Le'
-                    lenside = 'len(' in a and 'threads' in a
-                    maxside = 'max_threads' in b
-                    strict = op == 'Lt'
+                    # orient as  len(threads) OP max_threads
+                    if 'len(' in b and 'threads' in b and 'max_threads' in a:
+                        a, b = b, a
+                        op = {'Lt': 'Gt', 'Gt': 'Lt', 'Le': 'Ge', 'Ge': 'Le'}[op]
+                    if not ('len(' in a and 'threads' in a and 'max_threads' in b):
+                        continue
                     same_guard = frozenset(l for l in H.before.get((b2, len(blk['stmts'])), frozenset()) if H.guards[l] == 'SchedulerCore.threads') & frozenset(l for l in H.at_term.get(bb, frozenset()) if H.guards[l] == 'SchedulerCore.threads')
-                    if lenside and maxside and strict and same_guard:
-                        tr = tt['otherwise']
-                        if edom(fn, tr, bb):
-                            good = True
-                    elif lenside and maxside and not strict:
+                    true_edge = tt['otherwise']
+                    false_edge = dict((str(v), b3) for v, b3 in tt['targets']).get('0')
+                    # the edge on which the comparison says "room for one more"
+                    room = {'Lt': true_edge, 'Ge': false_edge}.get(op)
+                    loose = {'Le': true_edge, 'Gt': false_edge}.get(op)
+                    if room is not None and same_guard and edom(fn, room, bb):
+                        good = True
+                    elif loose is not None and edom(fn, loose, bb) and good is not True:
                         good = 'nonstrict'
         if good is True:
             out.append(ok(R, key, 'dominated by the true edge of `threads.len() < max_threads`, tested under the same threads lock', loc=fn.loc(bb), fn=fn.name))
